@@ -6,10 +6,11 @@
      Every plan the real operator.Builder produces in a run of bin/check is pushed through it inside Coq
      (monitor of model/C08_Builder.v), which decides the property for that plan.
    * The builder model (checked step for step against the real builder on every case) is shown to
-     produce only accepted plans on the exhaustive domain of <= 3 stores (bounded: the bound is in the
-     statement), for the joint path without exclusion, for the non-joint path outside two classes on
-     which the unchanged code violates the property (refutation witnesses below, replayed on the real
-     code by the driver, listed in KNOWN_FINDINGS.txt). *)
+     produce only accepted plans: on the exhaustive domain of <= 3 stores (bounded: the bound is in the
+     statement) for both paths, and in general for the joint path.  The two classes of inputs on which
+     the builder used to violate the property (S16, demote before add) were repaired in /repo; the
+     former refutation witnesses are kept as regression lemmas (the old plans are rejected, the new
+     ones accepted). *)
 From Coq Require Import String.
 From PDV Require Import lib.Base gen.Gen_C08 model.C08_Steps model.C08_Builder
      proof.C08_PlanProof proof.C08_BuilderProof proof.C08_JointMain proof.C08_Skel.
@@ -47,38 +48,33 @@ Theorem C08_builder_plan_ok_bounded :
     In tv (vectors role_opts n) -> In tl (0 :: voters_of (target_of tv)) ->
     In lok (vectors [true; false] n) -> In m modes ->
   forall b ss kl kr,
-    let i := mk_input n ov ol tv tl lok m force in
-    prepared i = Some b -> build i = Built ss kl kr ->
-    excluded b = false ->                         (* = joint path, or non-joint path outside the two classes below *)
-    plan_ok (goal_of b) (i_region i) ss = true.
+    prepared (mk_input n ov ol tv tl lok m force) = Some b -> build (mk_input n ov ol tv tl lok m force) = Built ss kl kr ->
+    plan_ok (goal_of b) (i_region (mk_input n ov ol tv tl lok m force)) ss = true.
 Proof. exact builder_plan_ok_bounded_pf. Qed.
 
-Theorem C08_joint_path_not_excluded : forall b, b_use_joint b = true -> excluded b = false.
-Proof. exact excluded_joint. Qed.
+(* ---- the two inputs on which the builder violated the property before it was repaired ---- *)
+(* S16: without joint-consensus support a voter->learner change is split into remove+add on the same store; the add
+   now waits until the store is free and gets a new peer id *)
+Theorem C08_s16_repaired :
+  build s16_input = Built [RemovePeer 2 12; AddLearner 2 202; RemovePeer 3 13] false true
+  /\ exists b, prepared s16_input = Some b /\
+       plan_ok (goal_of b) (i_region s16_input) [RemovePeer 2 12; AddLearner 2 202; RemovePeer 3 13] = true.
+Proof. split; [exact s16_plan|exact s16_ok]. Qed.
 
-(* ---- full statement, refuted on the unchanged code (two independent witnesses) ---- *)
-Definition C08_builder_plan_ok_full : Prop :=
-  forall i b ss kl kr, prepared i = Some b -> build i = Built ss kl kr -> plan_ok (goal_of b) (i_region i) ss = true.
+(* joint consensus supported but disabled: the replacing voter is now added before the follower is demoted *)
+Theorem C08_demote_after_add_repaired :
+  build dip_input = Built [AddLearner 1 201; PromoteLearner 1 201; DemoteFollower 3 103] false true
+  /\ exists b, prepared dip_input = Some b /\
+       plan_ok (goal_of b) (i_region dip_input) [AddLearner 1 201; PromoteLearner 1 201; DemoteFollower 3 103] = true.
+Proof. split; [exact dip_plan|exact dip_ok]. Qed.
 
-(* S16: without joint-consensus support a voter->learner change is split into remove+add on the same store;
-   planReplace pairs that add with the removal of ANOTHER store *)
-Theorem C08_builder_plan_ok_refuted : ~ C08_builder_plan_ok_full.
-Proof.
-  intros F. destruct s16_fails as (b & Hp & Hc).
-  specialize (F s16_input b _ _ _ Hp s16_plan). unfold plan_ok in F. rewrite Hc in F. discriminate.
-Qed.
-
-(* still false when the S16 class is excluded: with joint consensus supported but disabled a follower is demoted
-   before the replacing voter is added *)
-Definition C08_builder_plan_ok_no_split_full : Prop :=
-  forall i b ss kl kr, prepared i = Some b -> build i = Built ss kl kr -> overlap_add_remove b = false ->
-                       plan_ok (goal_of b) (i_region i) ss = true.
-
-Theorem C08_builder_plan_ok_no_split_refuted : ~ C08_builder_plan_ok_no_split_full.
-Proof.
-  intros F. destruct dip_fails as (b & Hp & Ho & Hc).
-  specialize (F dip_input b _ _ _ Hp dip_plan Ho). unfold plan_ok in F. rewrite Hc in F. discriminate.
-Qed.
+(* the plans built before the repairs are rejected by the checker (so a regression is a violation, not a silent change) *)
+Theorem C08_unrepaired_plans_rejected :
+  (exists b, prepared s16_input = Some b /\
+     plan_check (goal_of b) (i_region s16_input) [AddLearner 2 12; RemovePeer 3 13; RemovePeer 2 12] = Some "check-safety-fails:AddLearner"%string)
+  /\ (exists b, prepared dip_input = Some b /\
+     plan_check (goal_of b) (i_region dip_input) [DemoteFollower 3 103; AddLearner 1 201; PromoteLearner 1 201] = Some "voters-below-min:DemoteFollower"%string).
+Proof. exact old_plans_rejected. Qed.
 
 (* ---- CreateLeaveJointStateOperator, every reachable joint state of up to 3 stores ---- *)
 Theorem C08_leave_joint_ok_bounded :
@@ -105,11 +101,12 @@ Theorem C08_builder_joint_plan_ok :
 Proof. exact builder_joint_plan_ok_general_pf. Qed.
 
 (* ---- statement not yet proved in general: visible, listed under "todo" in checks/C08.json ---- *)
-(* the non-joint path for any number of stores, outside the two refuted classes *)
+(* the non-joint path for any number of stores *)
 Definition C08_builder_nonjoint_plan_ok_general_todo : Prop :=
   forall i b ss kl kr,
-    NoDup (map pstore (peers (i_region i))) -> is_in_joint (i_region i) = false ->
-    prepared i = Some b -> b_use_joint b = false -> excluded b = false -> build i = Built ss kl kr ->
+    nodup_stores (peers (i_region i)) = true -> is_in_joint (i_region i) = false ->
+    (exists lp, get_store_peer (i_region i) (leader (i_region i)) = Some lp /\ prole lp = Voter) ->
+    prepared i = Some b -> b_use_joint b = false -> build i = Built ss kl kr ->
     plan_ok (goal_of b) (i_region i) ss = true.
 
 (* non-vacuity: a joint plan with leader hand-over inside the joint state is accepted; domain sizes *)
@@ -128,8 +125,8 @@ Proof. split; [vm_compute; reflexivity|]. split; [eexists; split; [|split]; vm_c
 Print Assumptions C08_plan_ok_sound.
 Print Assumptions C08_exec_plan_covers_steps.
 Print Assumptions C08_builder_plan_ok_bounded.
-Print Assumptions C08_joint_path_not_excluded.
-Print Assumptions C08_builder_plan_ok_refuted.
-Print Assumptions C08_builder_plan_ok_no_split_refuted.
+Print Assumptions C08_s16_repaired.
+Print Assumptions C08_demote_after_add_repaired.
+Print Assumptions C08_unrepaired_plans_rejected.
 Print Assumptions C08_leave_joint_ok_bounded.
 Print Assumptions C08_builder_joint_plan_ok.
